@@ -118,6 +118,12 @@ pub uninterp spec fn dec<T>(b: Seq<u8>) -> T;
 pub broadcast proof fn axiom_dec_enc<T>(t: T)
     ensures #[trigger] dec::<T>(enc::<T>(t)) == t
 { }
+/// A4: exactly the byte strings that are encodings decode successfully
+pub uninterp spec fn decodable<T>(b: Seq<u8>) -> bool;
+#[verifier::external_body]
+pub broadcast proof fn axiom_decodable_enc<T>(t: T)
+    ensures #[trigger] decodable::<T>(enc::<T>(t))
+{ }
 #[verifier::external_body]
 pub fn to_json_binary<T>(t: &T) -> (r: StdResult<Binary>)
     ensures r is Ok, r->Ok_0@ == enc::<T>(*t)
@@ -128,7 +134,7 @@ pub fn to_json_vec<T>(t: &T) -> (r: StdResult<Vec<u8>>)
 { unimplemented!() }
 #[verifier::external_body]
 pub fn from_json<T>(b: &Binary) -> (r: StdResult<T>)
-    ensures r is Ok ==> r->Ok_0 == dec::<T>(b@)
+    ensures r is Ok ==> r->Ok_0 == dec::<T>(b@), r is Ok <==> decodable::<T>(b@)
 { unimplemented!() }
 
 // ---------------------------------------------------------------- messages
